@@ -154,9 +154,14 @@ std::string prog_future(vf::rng &r, bool nonheap, std::vector<cocls::reusable_st
             if (how == 0) p(mkval<T>(5)); else if (how == 1) p(cocls::drop); else { cocls::promise<T> q = std::move(p); }
             if (blocking) for (int i = 0; i < nblock; i++) Hs[i].wait();
             (void)f.ready();
+            // the reader asks for the result: a value, or - for a dropped / destroyed promise - await_canceled_exception (the exception
+            // object itself comes from the C++ runtime's own allocator, not from operator new)
+            try { auto &v = f.value(); (void)v; if (how != 0) err = "harness: dropped future delivered a value"; }
+            catch (const cocls::await_canceled_exception &) { if (how == 0) err = "harness: resolved future reported no value"; }
         }
         frames = reg.nframes(); deq = reg.ndeque();
-        if (reg.nother()) err = std::string("allocation by the primitives: ") + al::other_stack;
+        if (!err.empty()) {}
+        else if (reg.nother()) err = std::string("allocation by the primitives: ") + al::other_stack;
         else if (reg.nsp() && ncoro <= 3) err = "suspend point carrying " + std::to_string(ncoro) + " (<= 3) ready coroutines allocated heap memory (" + std::to_string(nblock) + " blocking and " + std::to_string(ncb) + " callback waiters carry no coroutine)";
         else if (woke.load() != nblock) err = "harness: blocking waiters not released";
         else if (C.released != ncoro + ncb) err = "harness: not all waiters released";
@@ -319,6 +324,7 @@ inline void alloc_free_programs(const vf::opts &o, vf::report &R, uint64_t progr
     helper_thread Hs[4];
     std::vector<cocls::reusable_storage> stor(10);
     { void *bt[4]; backtrace(bt, 4); } // first call loads libgcc (allocates): keep it out of measured regions
+    try { throw cocls::await_canceled_exception(); } catch (const cocls::await_canceled_exception &) {} // first throw initialises the unwinder
     // warm-up of the reusable storages and of the thread-local ready queue (outside measured regions)
     {
         c20_ctx C; cocls::future<pod8> f; auto p = f.get_promise();
